@@ -174,6 +174,8 @@ CLAUSE = {11: "a TrimOpenConns closed a connection of a protected peer, of a pee
           34: "a trim left more than low + (connections added to its candidates after their snapshot) connections on its live candidates",
           35: "a pruned temporary entry held a connection",
           36: "the sort's comparator read a torn value",
+          37: "a trim closed a connection of a candidate that is inside its grace period when closed (an early-tagged candidate whose first "
+              "Connected arrived after the snapshot: the selection loop must re-check firstSeen)",
           3: "connection count differs from what the Connected/Disconnected notifications imply",
           4: "a peer's tag total differs from what the tag operations imply"}
 
